@@ -130,17 +130,22 @@ def check_query(sql, tags, dbs, duck, res, record, full_api_on=()):
                    f"executor returned {cols} {oe.norm_rows(rows)[:6]}, engines return {oe.norm_rows(ref)[:6]} ({verdict})")
 
 
-def worker(shard, nshards, plan_units, r):
+def worker(shard, nshards, plan_units, r, quick=False):
     logging.disable(logging.CRITICAL)
     res = {"evaluations": 0, "nontrivial": 0, "refused": 0, "execute_error": 0, "duckdb_runs": 0, "engines_reject": 0,
            "engines_disagree": 0, "viol": {}, "samples": [], "queries": 0}
     duck = oe.Duck(SCHEMA, {})
     cache = {}
 
-    def dbs(tables):
-        key = tuple(tables)
+    def dbs(tables, cost=0):
+        key = (tuple(tables), quick and cost >= 2)
         if key not in cache:
-            cache[key] = [RICH] + list(oe.instances(SCHEMA, tables, DOMAIN, r))
+            inst = list(oe.instances(SCHEMA, tables, DOMAIN, r))
+            if key[1] and len(tables) > 1:
+                # quick tier, two-table queries with two constructs: every instance in which at least one table
+                # has <= 1 row (1000 of 3025); the thorough tier runs all of them
+                inst = [d for d in inst if min(len(v) for v in d.values()) <= 1]
+            cache[key] = [RICH] + inst
         return cache[key]
 
     def record(sig, tags, sql, data, msg):
@@ -157,7 +162,7 @@ def worker(shard, nshards, plan_units, r):
         if i % nshards != shard:
             continue
         res["queries"] += 1
-        check_query(sql, tags, dbs, duck, res, record, full_api_on=(0, 1))
+        check_query(sql, tags, lambda tables, _c=cost: dbs(tables, _c), duck, res, record, full_api_on=(0, 1))
         if len(res["samples"]) < 2 and i % 97 == shard:
             res["samples"].append({"sql": sql, "tags": list(tags)})
     duck.close()
@@ -172,7 +177,7 @@ def run(ctx: Ctx) -> None:
     qs = list(queries(k, engine_extras=True))
     if not quick:
         pass
-    res = ctx.run_shards(worker, ctx.jobs * 4, qs, r)
+    res = ctx.run_shards(worker, ctx.jobs * 4, qs, r, quick)
     viol = {}
     for sig, v in res["viol"]:
         if sig in viol:
@@ -197,7 +202,7 @@ def run(ctx: Ctx) -> None:
                     "equality / inequality / residual / constant / OR conditions, USING, GROUP BY + 7 aggregates, HAVING, DISTINCT, ORDER BY with "
                     "NULLS FIRST/LAST, LIMIT/OFFSET, UNION/INTERSECT/EXCEPT [ALL], IN / NOT IN / EXISTS / scalar subqueries correlated or not, "
                     f"CTEs used once or twice, derived tables) x EVERY database with <= {r} rows per mentioned table over {{NULL,1,2}} "
-                    "(55 per table) + a rich instance, compared with SQLite (every case) and DuckDB (rich instance, SQLite disagreements "
+                    "(55 per table" + ("; quick: for two-table queries with two constructs the 1000 of 3025 instances in which one table has <= 1 row" if quick else "") + ") + a rich instance, compared with SQLite (every case) and DuckDB (rich instance, SQLite disagreements "
                     "and SQLite-rejected queries). non-trivial = agreeing results that are empty or contain a NULL.",
             "queries": res["queries"],
             "optimizer_refused": res["refused"],
